@@ -17,6 +17,8 @@
 (*                      \Recent equals the last RECENT count it was given  *)
 (*  C17_StoreKeepsRecent  a FETCH received while the session's own STORE   *)
 (*                      is in flight never changes a message's \Recent     *)
+(*                      (ev.gone: the message has left the store - nothing  *)
+(*                      is demanded of what is said about a ghost)          *)
 (***************************************************************************)
 EXTENDS Naturals, Sequences, FiniteSets, TLC, Json, IOUtils
 
@@ -97,7 +99,9 @@ Fetch(ev) ==
       ownStore == cmd[s] # <<>> /\ cmd[s][1] = "store"
   IN IF ~inr \/ ~ev.hasflags
      THEN UNCHANGED <<cv, cr, mb, rw, sid, nextid, rcnt, shown, owed, claim, cmd, pendsel, bad>>
-     ELSE IF ownStore /\ cr[s][ev.n] # "?" /\ cr[s][ev.n] # now THEN Fail("C17_StoreKeepsRecent")
+     \* (not for a message that is no longer in the store - expunged by another session,
+     \* this one not told yet: the session flags of a ghost are gone with it)
+     ELSE IF ownStore /\ ~ev.gone /\ cr[s][ev.n] # "?" /\ cr[s][ev.n] # now THEN Fail("C17_StoreKeepsRecent")
      ELSE IF isR /\ rw[s] /\ u # 0 /\ mb[s] # ""
              /\ \E x \in shown : x[1] = mb[s] /\ x[2] = u /\ x[3] # sid[s]
           THEN Fail("C17_AtMostOneRW")
